@@ -17,6 +17,48 @@ static vf::Args A;
 static bool g_verbose = false;
 static std::function<void(Stats&)> g_checkpoint; // flushes what a scenario has established so far
 
+// ---- isolation: a worker runs its scenarios in a forked child of its own and learns through this
+// private shared page which scenario was in flight when the child died
+struct IsoSlot {
+	std::atomic<long> progress;
+	char inflight[16384];
+};
+static IsoSlot* g_iso = nullptr;
+static void iso_init() {
+	if (g_iso) return;
+	void* p = mmap(nullptr, sizeof(IsoSlot), PROT_READ | PROT_WRITE, MAP_SHARED | MAP_ANONYMOUS, -1, 0);
+	if (p == MAP_FAILED) vf::fatal("mmap failed");
+	g_iso = new (p) IsoSlot();
+	g_iso->progress = 0;
+	g_iso->inflight[0] = 0;
+}
+static void note_inflight(const std::string& s) {
+	if (g_iso) {
+		size_t n = std::min(s.size(), sizeof(g_iso->inflight) - 1);
+		memcpy(g_iso->inflight, s.data(), n);
+		g_iso->inflight[n] = 0;
+	}
+	vf::set_inflight(s);
+}
+static void note_progress(long p) {
+	if (g_iso) g_iso->progress = p;
+	vf::set_progress(p);
+}
+static vf::CrashInfo fork_run(const std::function<int()>& body) {
+	fflush(stdout);
+	pid_t pid = fork();
+	if (pid < 0) vf::fatal("fork failed");
+	if (pid == 0) {
+		int rc = body();
+		fflush(stdout);
+		_exit(rc);
+	}
+	int status = 0;
+	while (waitpid(pid, &status, 0) < 0 && errno == EINTR) {}
+	if (WIFEXITED(status) && WEXITSTATUS(status) == 0) return vf::CrashInfo();
+	return vf::read_crash(A.rundir, pid, status, A.repo);
+}
+
 // ---------------------------------------------------------------- options
 struct Opts {
 	bool headParts = false, removeParallax = false, calcBounds = false, fixBSXFlags = false, fixShaderFlags = false;
@@ -687,10 +729,20 @@ static void compare_conversion(const ModelSnap& B, const ModelSnap& Am, bool toS
 		}
 	}
 	// sibling names
-	std::map<int, std::set<std::string>> names;
-	for (auto& a : Am.shapes)
-		if (!names[a.parentIdx].insert(a.name).second)
-			addp(ps, "duplicate-sibling-names", "two shapes under '" + a.parentPath + "' are both called '" + a.name + "' after the conversion");
+	// (the key says whether a rename produced the clash and how deep the parent sits, so that
+	// different causes do not share a key)
+	std::map<std::pair<int, std::string>, std::vector<size_t>> names;
+	for (size_t i = 0; i < Am.shapes.size(); i++) names[{Am.shapes[i].parentIdx, Am.shapes[i].name}].push_back(i);
+	for (auto& e : names) {
+		if (e.second.size() < 2) continue;
+		const ShapeSnap& a = Am.shapes[e.second[0]];
+		bool renamed = false;
+		for (size_t i : e.second)
+			if (Am.shapes[i].name != B.shapes[i].name) renamed = true;
+		int depth = (int) std::count(a.parentPath.begin(), a.parentPath.end(), '/') - 1;
+		addp(ps, vf::strf("duplicate-sibling-names:%s:parent-depth=%s", renamed ? "renamed-onto-taken-name" : "left-unrenamed", depth >= 2 ? "2+" : depth == 1 ? "1" : "0"),
+			 vf::strf("%zu shapes under '%s' are all called '%s' after the conversion", e.second.size(), a.parentPath.c_str(), a.name.c_str()));
+	}
 	// BSX flags
 	if (B.hasBsx != Am.hasBsx) addp(ps, "bsx-flags-changed", "BSX flags block appeared or vanished");
 	else if (B.hasBsx) {
@@ -784,7 +836,7 @@ static void report(Stats& st, const std::string& prefix, const Problems& ps, con
 
 // returns false when the scenario was not generated (headParts on an ineligible model)
 static bool run_scenario(const Source& src, const std::string& bytes, const Opts& o, Stats& st, UnitAcc& acc, bool sample) {
-	vf::set_inflight(scenario_json(src, o, 1).dump());
+	note_inflight(scenario_json(src, o, 1).dump());
 	g_found_leg = 1;
 	NifFile N;
 	if (load_bytes(N, bytes) != 0) {
@@ -825,7 +877,7 @@ static bool run_scenario(const Source& src, const std::string& bytes, const Opts
 	if (S0.looseShapes) st.add("models_with_unreachable_shapes");
 
 	// ---- leg 1
-	vf::set_inflight(scenario_json(src, o, 1).set("in", skin_state(S0)).dump());
+	note_inflight(scenario_json(src, o, 1).set("in", skin_state(S0)).dump());
 	OptOptions lo = o.lib(toSSE ? NiVersion::getSSE() : NiVersion::getSK());
 	OptResult res = N.OptimizeFor(lo);
 	st.add("evaluations");
@@ -897,7 +949,7 @@ static bool run_scenario(const Source& src, const std::string& bytes, const Opts
 	// its result is not compared, so that one defect is not reported twice.
 	if (g_checkpoint) g_checkpoint(st);
 	g_found_leg = 2;
-	vf::set_inflight(scenario_json(src, o, 2).set("in", skin_state(S2)).dump());
+	note_inflight(scenario_json(src, o, 2).set("in", skin_state(S2)).dump());
 	if (o.headParts && !headparts_eligible(S2)) {
 		st.add("leg2_skipped_headparts_not_eligible");
 		return true;
@@ -1196,7 +1248,8 @@ static std::string crash_violation(vf::CrashInfo ci, const std::string& inflight
 	J j;
 	try {
 		j = J::parse(inflight);
-	} catch (std::exception&) {
+	} catch (std::exception& e) {
+		if (g_verbose) fprintf(stderr, "unparsable in-flight description (%s): [%s]\n", e.what(), inflight.c_str());
 		parent.violation("crash:" + ci.key(), "process died outside a described scenario: " + ci.cls + " in " + ci.frame, J::obj());
 		return "";
 	}
@@ -1254,9 +1307,10 @@ static void run_tasks(const std::vector<Task>& tasks, const std::vector<Source>&
 			break;
 		}
 		unlink(tmp.c_str());
-		vf::set_progress((long) pos);
-		vf::set_inflight("");
-		vf::CrashInfo ci = vf::run_isolated(A.rundir, A.repo, 0, [&]() -> int {
+		iso_init();
+		note_progress((long) pos);
+		note_inflight("");
+		vf::CrashInfo ci = fork_run([&]() -> int {
 			FILE* f = fopen(tmp.c_str(), "w");
 			if (!f) return 5;
 			UnitAcc acc;
@@ -1272,10 +1326,10 @@ static void run_tasks(const std::vector<Task>& tasks, const std::vector<Source>&
 					s.flush(f);
 					break;
 				}
-				vf::set_progress((long) t);
+				note_progress((long) t);
 				const Source& src = sources[tasks[t].src];
 				if (cachedSrc != tasks[t].src) {
-					vf::set_inflight(J(src.json()).set("stage", "build").dump());
+					note_inflight(J(src.json()).set("stage", "build").dump());
 					bytes = source_bytes(src, s);
 					cachedSrc = tasks[t].src;
 				}
@@ -1291,8 +1345,9 @@ static void run_tasks(const std::vector<Task>& tasks, const std::vector<Source>&
 		unlink(tmp.c_str());
 		if (ci.cls.empty()) break;
 		// the child died: attribute, then continue after the scenario that was in flight
-		long at = vf::g_shared && vf::g_slot >= 0 ? vf::g_shared->slots[vf::g_slot].progress.load() : (long) pos;
-		std::string inflight = vf::g_shared && vf::g_slot >= 0 ? std::string(vf::g_shared->slots[vf::g_slot].inflight) : std::string();
+		long at = g_iso->progress.load();
+		g_iso->inflight[sizeof(g_iso->inflight) - 1] = 0;
+		std::string inflight = g_iso->inflight;
 		crash_violation(ci, inflight, st);
 		if ((size_t) at < pos || (size_t) at >= end || ++guard > 100000) {
 			st.capped("cannot resume a unit after a fault");
